@@ -14,7 +14,7 @@ import os
 import re
 import shutil
 from .common import pmap, hexs, unhex
-from .c07 import parse_responses
+from .c07 import parse_responses, bulk_sessions
 
 LEAN_MODULES = ["GardenVerif.Props.C11"]
 
@@ -164,7 +164,7 @@ def last_value(resp):
 
 def run(ctx):
     rng = ctx.rng
-    nh = ctx.scale(1000, 30000)
+    nh = ctx.scale(400, 30000)
     hists = []
     kind_hist = {}
     for i in range(nh):
@@ -184,19 +184,30 @@ def run(ctx):
     d = ctx.scratch("sess")
     os.makedirs(d, exist_ok=True)
 
+    def printed_of(so):
+        return "".join(json.loads(x) for x in re.findall(r'"printed": \{\s*"s": ("(?:[^"\\]|\\.)*")', so or ""))
+
     def session(tag, inputs):
         p = os.path.join(d, "%s.jsonl" % tag)
         with open(p, "w") as f:
             for i in inputs:
                 f.write(json.dumps({"method": "run", "input": i}) + "\n")
-        rc, so, se = ctx.garden(["reftest-json-session", p], timeout=30, cwd=d)
-        printed = "".join(json.loads(x) for x in re.findall(r'"printed": \{\s*"s": ("(?:[^"\\]|\\.)*")', so or ""))
-        return rc, parse_responses(so or ""), printed
+        rc, so, se = ctx.garden(["reftest-json-session", p], timeout=120, cwd=d)
+        return rc, parse_responses(so or ""), printed_of(so)
 
-    def job(ix):
-        inputs = hists[ix]
-        return ix, session("i%d" % ix, inputs), session("b%d" % ix, ["".join(inputs)])
-    res = pmap(job, list(range(len(hists))))
+    jobs = []
+    for ix, inputs in enumerate(hists):
+        jobs.append(("i%d" % ix, inputs))
+        jobs.append(("b%d" % ix, ["".join(inputs)]))
+    raw = bulk_sessions(ctx, d, jobs, timeout=30)
+    res = []
+    for ix, inputs in enumerate(hists):
+        pair = []
+        for tag, inp in (("i%d" % ix, inputs), ("b%d" % ix, ["".join(inputs)])):
+            rc, so, se = raw[tag]
+            pair.append((rc, parse_responses(so or ""), printed_of(so)))
+        res.append((ix, pair[0], pair[1]))
+    ctx.log("%d sessions done" % len(jobs))
 
     def uses_earlier(inputs):
         defined = set()
